@@ -267,6 +267,11 @@ namespace bloch::runtime {
         std::mutex m_gcMutex;
         std::mutex m_heapMutex;
         size_t m_allocSinceGc = 0;
+        // A runtime error raised by a user destructor. Destructors run from shared_ptr deleters,
+        // which must not throw; the error is parked here and re-raised at the next statement
+        // boundary (or at the end of execute()).
+        std::optional<support::BlochError> m_deferredDestructorError;
+        void rethrowDeferredDestructorError();
         // Buffer for echo outputs so logs (INFO/WARNING/ERROR)
         // can be displayed first before normal program output.
         std::vector<std::string> m_echoBuffer;
